@@ -1192,6 +1192,97 @@ def _arm_class(F, body):
     return '?unknown'
 
 
+def _r3_dispatch_by_shape(cx, F):
+    """The dispatch clause read from the direct form `match symbol { '+' | '-' | '=' | '?' => self.switch(colon, symbol) .. }`.
+    None if it holds, else (message, arm)."""
+    hs = F.hir_of(SUFFIX_LEX)
+    disp = None
+    for m in H.matches_in(_async_block(hs)):
+        for arm in m['arms']:
+            cs = H.calls(arm['body'], [SWITCH_LEX])
+            if cs:
+                disp = (m, arm, cs[0])
+    cx.require(disp is not None, 'suffix_modifier does not call switch()')
+    vs = H.pat_variants(disp[1]['pat'])
+    syms = sorted(v[1] for v in (vs or []) if isinstance(v, tuple) and v[0] == 'lit')
+    cx.site('suffix_modifier dispatches %s to switch()' % syms)
+    # its char argument is the matched symbol; its bool argument is the result of skipping a ':'
+    args = [H.peel(a) for a in disp[2]['a']]
+    sym_ok = any(a.get('k') == 'local' and a.get('id') == H.peel(disp[0]['scrut']).get('id') for a in args)
+    colon_ok = False
+    for a in args:
+        if a.get('k') == 'local' and a.get('id') != H.peel(disp[0]['scrut']).get('id'):
+            for x in H.walk(_async_block(hs)):
+                if x.get('k') == 'block':
+                    for st in x.get('stmts') or []:
+                        if st.get('k') == 'let' and st['pat'].get('k') == 'bind' and st['pat']['id'] == a['id'] and st.get('ty') == 'bool':
+                            lits_ = [y.get('v') for y in H.walk(st['init']) if y.get('k') == 'lit']
+                            colon_ok = lits_ == [':'] and bool(H.calls(st['init'], [re.compile(r'::skip_if$')]))
+    if syms != sorted('+-=?') or not sym_ok or not colon_ok:
+        return ('found symbols %s, symbol passed: %s, colon flag passed: %s' % (syms, sym_ok, colon_ok), disp[1])
+    return None
+
+
+_R3_PROBES = '+-=?#%}:a0 /*!@$^&~|<>'
+
+
+def _r3_dispatch_by_evaluation(cx, F):
+    """The dispatch clause decided on the meaning: suffix_modifier is evaluated on a two-operation model of the lexer
+    (skip_if(pred) consumes the next character if pred accepts it and tells whether it did; peek_char yields the next
+    character or None at the end of input) for the inputs `c` and `:c`, c ranging over the four switch symbols, the trim
+    symbols, a sample of other characters and the end of input. switch() must be called - once, with c and with
+    "a ':' was consumed" - exactly when c is one of + - = ?. Returns '' if so, a message if not; raises Undecidable when
+    the body uses something the model does not cover."""
+    hs = F.hir_of(SUFFIX_LEX)
+    cx.require(hs['body'].get('k') == 'closure', 'suffix_modifier is not an async fn')
+    wrong = []
+    n_switch = 0
+    for prefix in ('', ':'):
+        for c in list(_R3_PROBES) + [None]:
+            if c == ':':
+                continue
+            text = prefix + (c or '')
+            st = {'pos': 0, 'switch': [], 'other': []}
+
+            def extern(name, recv, args, node, st=st, text=text):
+                name = str(name)
+                if recv != ('O', 'self'):
+                    raise Undecidable('suffix_modifier: call of %s is not modelled' % name)
+                if name.endswith('::skip_if') and len(args) == 1 and isinstance(args[0], tuple) and args[0][0] == 'C':
+                    if st['pos'] < len(text) and it.call_closure(args[0], [text[st['pos']]]) is True:
+                        st['pos'] += 1
+                        return V('core::result::Result::Ok', True)
+                    return V('core::result::Result::Ok', False)
+                if name.endswith('::peek_char') and not args:
+                    return V('core::result::Result::Ok', V(SOME, text[st['pos']]) if st['pos'] < len(text) else V(NONE))
+                if name.endswith('::index') and not args:
+                    return st['pos']
+                if name == SWITCH_LEX:
+                    if st['other']:
+                        raise Undecidable('suffix_modifier: %s is called before switch()' % st['other'][0])
+                    st['switch'].append((st['pos'], tuple(args)))
+                    return ('O', 'switch()')
+                st['other'].append(name)
+                return ('O', name)
+            it = Interp(F, extern)
+            env = {p_['id']: ('O', p_.get('name')) for p_ in hs['params'] if p_.get('k') == 'bind'}
+            try:
+                it.ev(hs['body']['body'], env)
+            except _Return:
+                pass
+            cx.cellcount(1)
+            want = [(len(prefix), (prefix == ':', c))] if c is not None and c in '+-=?' else []
+            got = [(pos, tuple(sorted(a, key=lambda x: isinstance(x, str)))) for pos, a in st['switch']]
+            n_switch += len(got)
+            if got != want:
+                def show(l):
+                    return ', '.join('switch%r with the lexer at offset %d' % (a, pos) for pos, a in l) or 'no call of switch'
+                wrong.append('on input %r: %s (expected: %s)' % (text, show(got), show(want)))
+    cx.site('suffix_modifier evaluated on %d inputs: switch(colon, symbol) is called for + - = ? only, with the symbol and '
+            "with whether a ':' was skipped (%d calls)" % (2 * len(_R3_PROBES), n_switch))
+    return '; '.join(wrong[:4])
+
+
 @RS.rule('C01.R3', 'K-TABLE', '${x-w} ${x=w} ${x?w} ${x+w} with and without colon: lexer, Vacancy::of, ValueCondition::with and switch::apply compose to the POSIX 2.6.2 table')
 def r3(cx):
     F = cx.F
@@ -1232,34 +1323,21 @@ def r3(cx):
                      'action/condition: %s %s' % ({k: _short(v) for k, v in lex_action.items()},
                                                   {k: _short(v) for k, v in lex_cond.items()}), loc=_hloc(F, SWITCH_LEX))
     # the dispatcher sends exactly these four symbols, with the colon flag, to switch()
-    hs = F.hir_of(SUFFIX_LEX)
     cx.fn(SUFFIX_LEX)
-    disp = None
-    for m in H.matches_in(_async_block(hs)):
-        for arm in m['arms']:
-            cs = H.calls(arm['body'], [SWITCH_LEX])
-            if cs:
-                disp = (m, arm, cs[0])
-    cx.require(disp is not None, 'suffix_modifier does not call switch()')
-    vs = H.pat_variants(disp[1]['pat'])
-    syms = sorted(v[1] for v in (vs or []) if isinstance(v, tuple) and v[0] == 'lit')
-    cx.site('suffix_modifier dispatches %s to switch()' % syms)
-    # its char argument is the matched symbol; its bool argument is the result of skipping a ':'
-    args = [H.peel(a) for a in disp[2]['a']]
-    sym_ok = any(a.get('k') == 'local' and a.get('id') == H.peel(disp[0]['scrut']).get('id') for a in args)
-    colon_ok = False
-    for a in args:
-        if a.get('k') == 'local' and a.get('id') != H.peel(disp[0]['scrut']).get('id'):
-            for x in H.walk(_async_block(hs)):
-                if x.get('k') == 'block':
-                    for st in x.get('stmts') or []:
-                        if st.get('k') == 'let' and st['pat'].get('k') == 'bind' and st['pat']['id'] == a['id'] and st.get('ty') == 'bool':
-                            lits_ = [y.get('v') for y in H.walk(st['init']) if y.get('k') == 'lit']
-                            colon_ok = lits_ == [':'] and bool(H.calls(st['init'], [re.compile(r'::skip_if$')]))
-    if syms != sorted('+-=?') or not sym_ok or not colon_ok:
+    verdict = undecided = None
+    try:
+        verdict = _r3_dispatch_by_evaluation(cx, F)
+    except Undecidable as e:
+        undecided = e
+    if verdict is None:
+        # the dispatcher is written in a form the evaluator does not cover: read its shape; a shape that cannot be read
+        # either is no verdict (fail closed), not a violation
+        bad = _r3_dispatch_by_shape(cx, F)
+        if bad is not None:
+            raise Undecidable('suffix_modifier: %s; and its match is not in the direct form (%s)' % (undecided, bad[0]))
+    elif verdict:
         cx.violation(SUFFIX_LEX, 'dispatch', 'the switch parser must receive exactly the symbols + - = ? together with the flag that '
-                     "tells whether a ':' was skipped; found symbols %s, symbol passed: %s, colon flag passed: %s"
-                     % (syms, sym_ok, colon_ok), loc=_hloc(F, SUFFIX_LEX, disp[1]))
+                     "tells whether a ':' was skipped; %s" % verdict, loc=_hloc(F, SUFFIX_LEX))
 
     # (b) Vacancy::of, (c) ValueCondition::with, (d) arms of apply
     of_inner = SW + 'Vacancy::of::inner'
@@ -1617,8 +1695,32 @@ def r5(cx):
                 cx.violation(body.root, 'writer:%s' % f, 'AttrChar.%s is changed to %s after construction outside the reviewed '
                              'writers (double_quote, apply_escapes, switch::attribute, ifs_join separator)' % (f, val), loc=body.loc(s))
     cx.floor(nw, 4, 'attribute writes after construction')
-    # double_quote marks every character of every shape of phrase
-    dq = 'yash_semantics::expansion::initial::word::double_quote'
+    # double_quote marks every character of every shape of phrase: decided on the meaning (the evaluation of R11: whatever
+    # the loops, helpers and adapters are, every character of a Char / Field / Full phrase comes back with is_quoted set)
+    dq = DOUBLE_QUOTE
+    try:
+        failures = _r11_evaluate(cx, F)
+    except Undecidable as e:
+        # double_quote uses something the evaluator does not model: read the direct form; if that cannot be read either
+        # there is no verdict (fail closed), not a violation
+        bad = _r5_double_quote_by_shape(cx, F)
+        if bad:
+            raise Undecidable('%s; and double_quote is not in the direct form (%s)' % (e, '; '.join(bad)))
+        return
+    cx.site('double_quote evaluated on Char, Field and Full phrases: every character comes back with is_quoted = true')
+    for shape, fs in sorted(failures.items()):
+        unq = [f for f in fs if f[3] == 'unquoted']
+        if unq:
+            cx.violation(dq, 'phrase-shape:%s' % shape, 'a Phrase::%s inside double quotes is not marked as quoted: its characters '
+                         'would be split and globbed (double_quote(%s): %s; result %s)' % (shape, unq[0][0], unq[0][1], unq[0][2]),
+                         loc=_hloc(F, dq))
+
+
+def _r5_double_quote_by_shape(cx, F):
+    """The double_quote clause of R5 read from the direct form (one arm per shape of phrase that calls quote_field or builds
+    the character; quote_field writes is_quoted inside its loop over iter_mut). List of what does not hold."""
+    out = []
+    dq = DOUBLE_QUOTE
     table, m = _match_table(F, dq, 'yash_semantics::expansion::phrase::Phrase')
     qf = dq + '::quote_field'
     for variant, (i, arm) in sorted(table.items()):
@@ -1627,8 +1729,7 @@ def r5(cx):
         builds = [x for x in H.walk(arm) if x.get('k') == 'struct' and x['p'].get('def') == ATTRCHAR]
         cx.cellcount(1)
         if not uses_qf and not builds:
-            cx.violation(dq, 'phrase-shape:%s' % variant, 'a Phrase::%s inside double quotes is not marked as quoted: its characters '
-                         'would be split and globbed' % variant, loc=_hloc(F, dq, arm))
+            out.append('the Phrase::%s arm neither calls quote_field nor builds the character' % variant)
     # quote_field: the write of is_quoted happens for every element (inside the loop over iter_mut of the whole vector)
     qb = F.body(qf)
     cx.fn(qf)
@@ -1638,7 +1739,8 @@ def r5(cx):
     good = bool(ws and its and nxt) and all(any(qb.dominates(nb, w[0]) and nb in qb.reachable(w[0]) for nb, _ in nxt) for w in ws)
     cx.site('%s: is_quoted = true inside the loop over chars.iter_mut()' % qf)
     if not good:
-        cx.violation(qf, 'not-all-chars', 'quote_field does not set is_quoted on every character of the field', loc=qb.loc(qb.d))
+        out.append('quote_field does not write is_quoted inside a loop over iter_mut()')
+    return out
 
 
 def _consequence(expected, got):
@@ -2579,6 +2681,15 @@ def _r11_interp(F, module_prefix):
                 and 0 <= args[0] <= len(recv):
             recv.insert(args[0], args[1])
             return ('T', ())
+        # one element seen as a slice of length 1 (the element itself, not a copy: writes through the slice reach it)
+        if name in ('core::slice::raw::from_mut', 'core::slice::raw::from_ref') and recv is None and len(args) == 1:
+            return [args[0]]
+        # a vector seen as a slice: the same elements
+        if name in ('alloc::vec::Vec::<T, A>::as_mut_slice', 'alloc::vec::Vec::<T, A>::as_slice') and isinstance(recv, list) and not args:
+            return recv
+        if decl in ('core::ops::deref::DerefMut::deref_mut', 'core::ops::deref::Deref::deref', 'core::convert::AsMut::as_mut',
+                    'core::borrow::BorrowMut::borrow_mut') and isinstance(recv, list) and not args:
+            return recv
         if name in ('core::slice::<impl [T]>::iter_mut', 'core::slice::<impl [T]>::iter') and isinstance(recv, list):
             return ('I', list(recv))
         if decl == 'core::iter::traits::collect::IntoIterator::into_iter' and isinstance(recv, (list, tuple)):
@@ -2651,8 +2762,23 @@ def _r11_show(fields):
 @RS.rule('C01.R11', 'K-TABLE', 'double_quote evaluated on Char, Field and Full phrases of 0-3 fields, empty fields included: every field, '
          'even an empty one, comes back as quoting mark, its characters quoted, quoting mark; the number of fields is unchanged')
 def r11(cx):
-    import itertools
     F = cx.F
+    fn = DOUBLE_QUOTE
+    failures = _r11_evaluate(cx, F)
+    for shape, fs in sorted(failures.items()):
+        label, bad, shown, _ = fs[0]
+        cx.violation(fn, 'shape:%s' % shape, 'double_quote(%s): %s; result %s (%d input(s) of shape %s fail: %s). Every field of a '
+                     'double-quoted expansion must be delimited by quoting marks and all its characters quoted: a field without marks is '
+                     'removed by field splitting when it is empty (`set -- a "" b; printf "[%%s]" "$@"` must print [a][][b], POSIX XCU '
+                     '2.5.2) and split / globbed when it is not'
+                     % (label, bad, shown, len(fs), shape, ' '.join(f[0] for f in fs[:6]) + (' ..' if len(fs) > 6 else '')), loc=_hloc(F, fn))
+
+
+def _r11_evaluate(cx, F):
+    """double_quote evaluated on every shape of phrase: {shape: [(input, what is wrong, result, kind)]}, kind 'unquoted' when
+    a character of the phrase comes back without is_quoted, else 'structure'. Raises Undecidable when double_quote uses
+    something the interpreter does not model."""
+    import itertools
     fn = DOUBLE_QUOTE
     cx.fn(fn)
     h = F.hir_of(fn)
@@ -2687,6 +2813,7 @@ def r11(cx):
         got = _r11_fields(env[pid])
         cx.cellcount(1)
         bad = None
+        kind = 'structure'
         if got is None:
             bad = 'the result is not a phrase'
         elif len(got) != len(before):
@@ -2710,18 +2837,14 @@ def r11(cx):
                     if (c['value'], c['origin'], c['is_quoting']) != (o['value'], o['origin'], o['is_quoting']) or \
                             (not c['is_quoting'] and c['is_quoted'] is not True):
                         bad = 'in field %d the character %r comes back as %s' % (i, o['value'], _show_chars([freeze(MutStruct(ATTRCHAR, c))]))
+                        if (c['value'], c['origin'], c['is_quoting']) == (o['value'], o['origin'], o['is_quoting']):
+                            kind = 'unquoted'
                         break
                 if bad:
                     break
         if bad:
-            failures.setdefault(label.split('(')[0], []).append((label, bad, _r11_show(got)))
-    for shape, fs in sorted(failures.items()):
-        label, bad, shown = fs[0]
-        cx.violation(fn, 'shape:%s' % shape, 'double_quote(%s): %s; result %s (%d input(s) of shape %s fail: %s). Every field of a '
-                     'double-quoted expansion must be delimited by quoting marks and all its characters quoted: a field without marks is '
-                     'removed by field splitting when it is empty (`set -- a "" b; printf "[%%s]" "$@"` must print [a][][b], POSIX XCU '
-                     '2.5.2) and split / globbed when it is not'
-                     % (label, bad, shown, len(fs), shape, ' '.join(f[0] for f in fs[:6]) + (' ..' if len(fs) > 6 else '')), loc=_hloc(F, fn))
+            failures.setdefault(label.split('(')[0], []).append((label, bad, _r11_show(got), kind))
+    return failures
 
 RS.rules.sort(key=lambda r: r.id)
 RS.explanation += ' (R11) double_quote is evaluated (HIR interpreter, private helpers of its module evaluated in place) on Phrase::Char, Phrase::Field and Phrase::Full with every combination of 0-3 empty / one-character / mixed-attribute fields: the number of fields is unchanged and every field, empty ones included, comes back as quoting `"`, the same characters with is_quoted set, quoting `"`, so "$@" keeps one field per positional parameter.'
